@@ -40,6 +40,12 @@ TETRA = [[0.0, 0.0, 0.0], [1.0, 0.0, 0.0], [0.0, 1.0, 0.0], [0.0, 0.0, 1.0]]
 TRI_FACES = [[0, 2, 1], [0, 1, 3], [1, 2, 3], [0, 3, 2]]
 
 
+def rot_about(axis, degs):
+    """stack of rotations about one coordinate axis"""
+    e = {"x": [1.0, 0, 0], "y": [0, 1.0, 0], "z": [0, 0, 1.0]}[axis]
+    return R.from_rotvec(np.outer(np.deg2rad(np.array(degs, dtype=float)), e))
+
+
 def good_func(field, observers):
     return np.zeros((len(observers), 3)) + (1.0 if field == "B" else 2.0)
 
@@ -87,11 +93,22 @@ def make_collection(**kw):
 make_collection.__mro__ = magpy.Collection.__mro__     # owner_of() looks the defining class up here
 
 
+def make_collection2(**kw):
+    """nesting depth 2: grandchildren follow the pose setters of the outer collection"""
+    inner = magpy.Collection(magpy.magnet.Cuboid(dimension=(1, 1, 1), polarization=(0, 0, 1), position=(0.5, 0, 0)),
+                             magpy.Sensor(position=(0, 0, 4)), position=(0, 1, 0))
+    return magpy.Collection(inner, magpy.current.Circle(diameter=1, current=1, position=(0, 0, -1)), **kw)
+
+
+make_collection2.__mro__ = magpy.Collection.__mro__
+
+
 def specs():
     M, C, X = magpy.magnet, magpy.current, magpy.misc
     pol = [0.5, 0.25, 1.0]
     return {
         "Collection": (make_collection, {}, {"position": POS, "orientation": ORI}),
+        "Collection2": (make_collection2, {}, {"position": POS, "orientation": ORI}),
         "Cuboid": (M.Cuboid, {"dimension": [1.0, 2.0, 3.0], "polarization": pol},
                    magnet_attrs({"dimension": ("vec", 3, "pos")})),
         "Cylinder": (M.Cylinder, {"dimension": [1.0, 2.0], "polarization": pol},
@@ -160,6 +177,12 @@ def build(v):
         return {"dict": lambda: {"a": 1}, "set": lambda: {1, 2, 3}, "object": object, "callable": lambda: len,
                 "emptydict": dict, "bytes": lambda: b"abc", "range": lambda: range(3),
                 "gen": lambda: (i for i in range(3))}[v["name"]]()
+    if k == "rot" and v.get("kind"):
+        return {"identity": lambda: R.from_quat([0, 0, 0, 1]),
+                "q90z": lambda: R.from_euler("z", 90, degrees=True),
+                "flip180x": lambda: R.from_euler("x", 180, degrees=True),
+                "turns": lambda: rot_about("z", [0, 90, 180, 270, -90]),
+                "mixed": lambda: R.from_euler("ZXZ", [[10, 20, 30], [180, 0, 0]], degrees=True)}[v["kind"]]()
     if k == "rot":
         n = v["n"]
         if n is None:
@@ -180,6 +203,11 @@ def build(v):
 
 
 def _container(data, c, dtype):
+    if c == "strided":      # non-contiguous float64 view into a larger array of the caller
+        a = np.array(data, dtype=float)
+        return np.repeat(a[..., None], 2, axis=-1)[..., 0]
+    if c == "forder":
+        return np.asfortranarray(np.array(data, dtype=float))
     if c == "ndarray":
         return np.array(data, dtype={"int": int, "float": float, "f32": np.float32, None: float}[dtype])
     if c == "tuple":
@@ -427,7 +455,8 @@ def battery_types():
         vs.append({"k": "str", "v": s})
     for n in ("dict", "emptydict", "set", "object", "callable", "bytes", "range", "gen"):
         vs.append({"k": "obj", "name": n})
-    vs += [{"k": "rot", "n": None}, {"k": "rot", "n": 1}, {"k": "rot", "n": 3}]
+    vs += [{"k": "rot", "n": None}, {"k": "rot", "n": 1}, {"k": "rot", "n": 3}, {"k": "rot", "n": 2}, {"k": "rot", "n": 17}]
+    vs += [{"k": "rot", "n": None, "kind": kd} for kd in ("identity", "q90z", "flip180x", "turns", "mixed")]
     for n in FUNCS:
         vs.append({"k": "func", "name": n})
     # irregular / non-float content
@@ -508,6 +537,33 @@ def mutated_valid(doc, valid, rng, n):
     out.append(mk(a * 0))
     out.append(mk(a * 1e-9))
     out.append(mk(a * 1e9))
+    for sc in (1e-3, 1e-6, 1e3, 1e6):           # absolute length / field scale
+        out.append(mk(a * sc))
+    out.append(mk(a, "strided"))                # float64 views of a caller array
+    out.append(mk(a, "forder"))
+    if a.ndim == 2 and a.shape[1] == 3:
+        out.append(mk(a + np.array([5.0, -4.0, 3.0])))      # body / path off its local origin
+        out.append(mk(a + np.array([5.0, -4.0, 3.0]), "strided"))
+        out.append(mk(a[::-1]))                             # other vertex order / chirality
+        out.append(mk(np.roll(a, 1, axis=0)))
+        out.append(mk(a[[1, 0] + list(range(2, len(a)))]))
+        out.append(mk(np.concatenate([a] * 6)[:16 + len(a) % 2]))    # many rows
+    if a.ndim == 1 and kind == "vec" and doc[2] == "any":
+        for j in range(len(a)):                 # exactly along +-x, +-y, +-z
+            e = np.zeros(len(a))
+            e[j] = 1.0
+            out.append(mk(e))
+            out.append(mk(-e))
+        out.append(mk(np.roll(a, 1)))
+        out.append(mk(np.roll(a, 2)))
+    if a.ndim == 1 and kind == "vec" and doc[2] == "pos":
+        for j in range(len(a)):                 # every axis the long one / the thin one
+            e = np.ones(len(a))
+            e[j] = 10.0
+            out.append(mk(e))
+            e = np.ones(len(a))
+            e[j] = 1e-6
+            out.append(mk(e))
     out.append(mk(a[:-1]))                      # one entry / row dropped
     out.append(mk(a[1:]))
     out.append(mk(np.concatenate([a, a[:1]])))  # one entry / row added
@@ -532,7 +588,12 @@ def mutated_valid(doc, valid, rng, n):
                   [1.0, 2.0, 1.0, 0.0, 360.5], [1.0, 2.0, 1.0, -200.0, 200.0], [0.0, 2.0, 1.0, -360.0, 0.0],
                   [1.0, 1.0, 1.0, 0.0, 90.0], [1.0, 2.0, 1.0, 45.0, 45.0], [0.0, 0.0, 1.0, 0.0, 90.0],
                   [-0.5, 2.0, 1.0, 0.0, 90.0], [1.0, 2.0, -1.0, 0.0, 90.0], [1.0, 2.0, 1.0, -400.0, -390.0],
-                  [1.0, 2.0, 1.0, 700.0, 720.0], [0.0, 1.0, 1.0, 0.0, 360.0]):
+                  [1.0, 2.0, 1.0, 700.0, 720.0], [0.0, 1.0, 1.0, 0.0, 360.0],
+                  [1.0, 2.0, 1.0, -270.0, -200.0], [0.5, 1.0, 2.0, -540.0, -200.0], [1.0, 2.0, 1.0, -359.75, 0.0],
+                  [1.0, 2.0, 1.0, 0.25, 360.0], [1.0, 1.000001, 1.0, 0.0, 90.0], [0.0, 2.0, 1.0, -180.0, 180.0],
+                  [1.0, 2.0, 1.0, -180.0, 180.5], [1.0, 2.0, 1.0, -720.0, -360.5], [1.0, 2.0, 1.0, 0.0, 359.999],
+                  [1.0, 2.0, 1.0, 0.0, 360.001], [1.0, 2.0, 1.0, -360.0, 0.5], [0.0, 1e-3, 1e-6, 0.0, 1.0],
+                  [1e3, 2e3, 1e3, 10.0, 20.0], [1.0, 10.0, 0.01, 0.0, 45.0], [1.0, 1.1, 50.0, 0.0, 45.0]):
             out.append(mk(b))
     for _ in range(n):
         b = a.copy()
@@ -595,9 +656,12 @@ def make_obj(cls_name, override=None):
 
 def snap(obj):
     out = {"_position": np.array(obj._position, copy=True), "_orientation": obj._orientation.as_quat().copy()}
-    for i, ch in enumerate(getattr(obj, "children", [])):     # a rejected pose assignment must not move the children
-        out[f"child{i}_position"] = np.array(ch._position, copy=True)
-        out[f"child{i}_orientation"] = ch._orientation.as_quat().copy()
+    def walk(o, tag):           # a rejected pose assignment must not move children / grandchildren
+        for i, ch in enumerate(getattr(o, "children", [])):
+            out[f"{tag}{i}_position"] = np.array(ch._position, copy=True)
+            out[f"{tag}{i}_orientation"] = ch._orientation.as_quat().copy()
+            walk(ch, f"{tag}{i}.")
+    walk(obj, "child")
     for a in DATA_ATTRS:
         if hasattr(obj, a):
             x = getattr(obj, "_" + a, None)
@@ -619,6 +683,17 @@ def same_snap(a, b):
     return True
 
 
+def diff_keys(a, b):
+    """which parts of the state differ between two snapshots"""
+    out = []
+    for k in sorted(set(a) | set(b)):
+        if k not in a or k not in b or not same_snap({k: a[k]}, {k: b[k]}):
+            name = "children" if k.startswith("child") else k.lstrip("_")
+            if name not in out:
+                out.append(name)
+    return out
+
+
 def classify(e):
     if isinstance(e, LIB_ERRORS):
         return "lib"
@@ -629,7 +704,7 @@ def classify(e):
     return "foreign:" + type(e).__name__
 
 
-def assign(cls_name, attr, v, via):
+def assign(cls_name, attr, v, via, precall=True):
     """returns (outcome, obj, detail): outcome accepted | lib | foreign:<Exc>; for a rejected setter call detail tells
     whether the object was left unchanged"""
     val = build(v)
@@ -640,11 +715,25 @@ def assign(cls_name, attr, v, via):
             return classify(e), None, {"value": val, "msg": str(e)[:160]}
         return "accepted", obj, {"value": val}
     obj = make_obj(cls_name)
+    if via == "setter" and precall:
+        field_of(obj)               # a field call BEFORE the assignment: nothing computed here may survive it
+    if via == "setter-path":        # the object already has a path of intermediate length
+        obj.position = [[1.0, 2.0, 3.0], [2.0, 3.0, 4.0], [3.0, 4.0, 5.5]]
+        obj.orientation = rot_about("y", [0, 90, 45])
     before = snap(obj)
+    if via == "copy":               # obj.copy(attr=value): the keyword goes through the copy's setter
+        try:
+            new = obj.copy(**{attr: val})
+        except Exception as e:      # pylint: disable=broad-except
+            return classify(e), obj, {"value": val, "unchanged": same_snap(before, snap(obj)), "changed": diff_keys(before, snap(obj)),
+                                     "msg": str(e)[:160]}
+        return "accepted", new, {"value": val, "unchanged": same_snap(before, snap(obj)),
+                                 "changed": diff_keys(before, snap(obj))}
     try:
         setattr(obj, attr, val)
     except Exception as e:          # pylint: disable=broad-except
-        return classify(e), obj, {"value": val, "unchanged": same_snap(before, snap(obj)), "msg": str(e)[:160]}
+        return classify(e), obj, {"value": val, "unchanged": same_snap(before, snap(obj)), "changed": diff_keys(before, snap(obj)),
+                                     "msg": str(e)[:160]}
     return "accepted", obj, {"value": val}
 
 
@@ -748,7 +837,52 @@ def compute_problem(obj):
     return None
 
 
-def check_case(cls_name, attr, v, vias=("setter", "ctor")):
+def same_stored(a, b):
+    if isinstance(a, np.ndarray) or isinstance(b, np.ndarray):
+        return isinstance(a, np.ndarray) and isinstance(b, np.ndarray) and a.shape == b.shape \
+            and a.dtype == b.dtype and np.array_equal(a, b, equal_nan=True)
+    return a is b or a == b
+
+
+def field_of(obj):
+    """('B', array) | ('lib', None) | ('err', text)"""
+    global _SRC         # pylint: disable=global-statement
+    try:
+        if isinstance(obj, magpy.Collection):
+            return "B", np.asarray(magpy.getB(obj, OBS))
+        if isinstance(obj, magpy.Sensor):
+            if _SRC is None:
+                _SRC = magpy.magnet.Cuboid(dimension=(1, 1, 1), polarization=(0, 0, 1), position=(0.2, 0.1, 3))
+            return "B", np.asarray(_SRC.getB(obj))
+        return "B", np.asarray(obj.getB(OBS))
+    except LIB_ERRORS:
+        return "lib", None
+    except Exception as e:           # pylint: disable=broad-except
+        return "err", f"{type(e).__name__}: {str(e)[:100]}"
+
+
+def twin_field_problem(a, b):
+    """same stored state reached two ways (call -> assign -> call vs. a fresh object) => the same field; tolerance
+    relative to the field's own scale"""
+    if isinstance(a, magpy.Collection):
+        return None                  # children follow a pose SETTER but not the constructor argument (documented)
+    (ka, fa), (kb, fb) = field_of(a), field_of(b)
+    if ka == "err" or kb == "err":
+        return None                  # reported by the `computable` clause
+    if ka != kb:
+        return f"field computation: {ka} on one object, {kb} on its twin with the same stored value"
+    if ka == "B":
+        if fa.shape != fb.shape:
+            return f"field shapes differ between twins: {fa.shape} vs {fb.shape}"
+        fin = np.isfinite(fa) & np.isfinite(fb)
+        scale = max(float(np.max(np.abs(fa[fin]), initial=0.0)), float(np.max(np.abs(fb[fin]), initial=0.0)))
+        if not np.array_equal(np.isfinite(fa), np.isfinite(fb)) or \
+                (scale > 0 and float(np.max(np.abs(fa[fin] - fb[fin]), initial=0.0)) > 1e-9 * scale):
+            return "field after call -> assignment -> call differs from a freshly constructed twin"
+    return None
+
+
+def check_case(cls_name, attr, v, vias=("setter", "ctor", "copy", "setter-path")):
     """the property's oracle on one (class, attribute, value); returns list of (clause, what)"""
     make, _, attrs = get_specs()[cls_name]
     doc = attrs[attr]
@@ -756,9 +890,11 @@ def check_case(cls_name, attr, v, vias=("setter", "ctor")):
     fails = []
     res = {}
     for via in vias:
-        if via == "setter" and (cls_name, attr) in CTOR_ONLY:
+        if via != "ctor" and (cls_name, attr) in CTOR_ONLY:
             continue
-        outcome, obj, det = assign(cls_name, attr, v, via)
+        if via == "setter-path" and attr not in ("position", "orientation"):
+            continue
+        outcome, obj, det = assign(cls_name, attr, v, via, precall=dv is not False)
         res[via] = (outcome, obj, det)
         if outcome == "accepted":
             if dv is False:
@@ -775,25 +911,41 @@ def check_case(cls_name, attr, v, vias=("setter", "ctor")):
             elif outcome != "lib":
                 fails.append(("foreign-exception", f"{via}: raised {outcome[8:]} instead of the library's input "
                                                    f"error: {det['msg']}"))
-            if via == "setter" and not det["unchanged"]:
-                fails.append(("rejected-unchanged", f"setter raised {outcome} after changing the object"))
-    if len(res) == 2:
+            if via != "ctor" and not det["unchanged"]:
+                fails.append(("rejected-unchanged", f"{via} raised {outcome} after changing the object's "
+                                                    f"{'+'.join(det['changed'])}", "+".join(det["changed"])))
+        if via == "copy" and outcome == "accepted" and not det["unchanged"]:
+            fails.append(("rejected-unchanged", "copy(attr=value) changed the ORIGINAL object's "
+                                                + "+".join(det["changed"]), "original:" + "+".join(det["changed"])))
+    if "setter" in res and "copy" in res:
+        (o1, ob1, _), (o3, ob3, _) = res["setter"], res["copy"]
+        if o1 != o3 and not (o1.startswith("foreign") and o3.startswith("foreign")):
+            fails.append(("ctor-setter", f"setter: {o1}, copy(attr=value): {o3}"))
+        elif o1 == "accepted" and not same_stored(stored_raw(ob1, attr), stored_raw(ob3, attr)):
+            fails.append(("ctor-setter", "copy(attr=value) and the setter store different values"))
+    if "setter" in res and "ctor" in res:
         (o1, ob1, _), (o2, ob2, _) = res["setter"], res["ctor"]
         if (o1 == "accepted") != (o2 == "accepted") or (o1 != "accepted" and (o1 == "lib") != (o2 == "lib")):
             fails.append(("ctor-setter", f"setter: {o1}, constructor: {o2}"))
         elif o1 == "accepted":
-            a, b = stored_raw(ob1, attr), stored_raw(ob2, attr)
-            if isinstance(a, np.ndarray) or isinstance(b, np.ndarray):
-                same = isinstance(a, np.ndarray) and isinstance(b, np.ndarray) and a.shape == b.shape \
-                    and a.dtype == b.dtype and np.array_equal(a, b, equal_nan=True)
-            else:
-                same = a is b or a == b
-            if not same:
+            if not same_stored(stored_raw(ob1, attr), stored_raw(ob2, attr)):
                 fails.append(("ctor-setter", "constructor and setter store different values"))
+            else:
+                p = twin_field_problem(ob1, ob2)
+                if p:
+                    fails.append(("ctor-setter", p))
     # later clauses are consequences of earlier ones (an undocumented value that was accepted also "differs between
     # constructor and setter", ...): report the first failing clause only, so that one defect has one signature
     fails.sort(key=lambda f: CLAUSES.index(f[0]))
     return fails[:1], res
+
+
+def fail_sig(cls_name, attr, f, v):
+    """signature of one failure: rejected-unchanged is identified by WHAT changed, the others by the kind of value"""
+    if len(f) > 2:
+        make = get_specs()[cls_name][0]
+        return f"{f[0]}/{owner_of(make, attr)}.{attr}:changed-{f[2]}"
+    return signature(cls_name, attr, f[0], v)
 
 
 CLAUSES = ["rejects-documented", "accepts-undocumented", "foreign-exception", "rejected-unchanged", "read-back",
@@ -834,7 +986,7 @@ def shrink_value(cls_name, attr, clause, v):
                 fails, _ = check_case(cls_name, attr, cand)
             except Exception:      # pylint: disable=broad-except
                 continue
-            if any(c == clause for c, _ in fails) and signature(cls_name, attr, clause, cand) == sig:
+            if any(f[0] == clause for f in fails) and signature(cls_name, attr, clause, cand) == sig:
                 v, progress = cand, True
                 break
     return v
@@ -854,16 +1006,213 @@ def sweep(ctx, big):
                 o = next(iter(res.values()))[0]
                 ctx.bump("search:" + ("accepted" if o == "accepted" else "rejected-lib" if o == "lib" else "foreign"))
                 ctx.bump("search-attr:" + attr)
-                for clause, what in fails:
-                    sig = signature(cls_name, attr, clause, v)
+                for f in fails:
+                    clause, what = f[0], f[1]
+                    sig = fail_sig(cls_name, attr, f, v)
                     if sig not in found or len(json.dumps(v)) < len(json.dumps(found[sig][2])):
                         found[sig] = (cls_name, attr, v, clause, what)
+    for cls_name, (make, _, attrs) in get_specs().items():
+        for attr, doc in attrs.items():
+            if (cls_name, attr) not in CTOR_ONLY:
+                r = history_case(cls_name, attr)
+                ctx.case(("history", cls_name, attr), True)
+                ctx.bump("search:history")
+                if r is not None:
+                    clause, what, v = r
+                    sig = signature(cls_name, attr, clause, v) + ":history"
+                    ctx.impl_fail(sig, f"{cls_name}.{attr}: {what}",
+                                  {"kind": "history", "class": cls_name, "attr": attr, "clause": clause})
+            r = own_array_case(cls_name, attr)
+            ctx.case(("own-array", cls_name, attr), True)
+            if r is not None:
+                ctx.impl_fail(f"{r[0]}/{owner_of(make, attr)}.{attr}:own-array", f"{cls_name}.{attr}: {r[1]}",
+                              {"kind": "own-array", "class": cls_name, "attr": attr, "clause": r[0]})
+    for rep_i in range(ctx.n(3, 20)):
+        r = batch_case(rng)
+        ctx.case(("batch", rep_i), True)
+        ctx.bump("search:batch")
+        if r is not None:
+            ctx.impl_fail(f"{r[0]}/batch:{r[2]}", r[1], {"kind": "batch", "clause": r[0]})
     for sig, (cls_name, attr, v, clause, what) in sorted(found.items()):
         v2 = shrink_value(cls_name, attr, clause, v)
         fails, _ = check_case(cls_name, attr, v2)
-        what2 = next((w for c, w in fails if c == clause), what)
+        what2 = next((f[1] for f in fails if f[0] == clause), what)
         ctx.impl_fail(sig, f"{cls_name}.{attr} = {describe(v2)}: {what2}",
                       {"kind": "assignment", "class": cls_name, "attr": attr, "value": v2, "clause": clause})
+
+
+# ---------------------------------------------------------------------- histories, aliasing, batches
+def second_valid(doc, valid):
+    """another documented-valid value of the attribute (JSON spec)"""
+    kind = doc[0]
+    if kind == "scalar":
+        return {"k": "num", "v": float(valid) * 2 + 0.25}
+    if kind == "orientation":
+        return {"k": "rot", "n": None, "kind": "q90z"}
+    if kind == "member":
+        return {"k": "str", "v": "left"}
+    if kind == "func":
+        return {"k": "func", "name": "good2"}
+    a = np.array(valid, dtype=float)
+    if kind == "vec" and doc[2] == "cylseg":
+        return {"k": "seq", "data": [0.5, 1.5, 2.0, -30.0, 200.0], "c": "tuple"}
+    if kind == "vec":
+        return {"k": "seq", "data": (a * 2 + 0.25).tolist(), "c": "ndarray"}
+    return {"k": "seq", "data": (a * 1.5 + np.arange(a.shape[-1]) * 0.25).tolist(), "c": "list"}
+
+
+def bad_value(doc):
+    kind = doc[0]
+    if kind in ("scalar", "func"):
+        return {"k": "str", "v": "abc"}
+    if kind == "orientation":
+        return seq((3,), "list")
+    if kind == "member":
+        return {"k": "str", "v": "up"}
+    return seq((7,), "list")
+
+
+def first_valid(cls_name, attr, doc):
+    base = get_specs()[cls_name][1]
+    if attr == "position":
+        return seq((3, 3), "list", off=2)
+    if attr == "orientation":
+        return {"k": "rot", "n": 3}
+    if attr == "magnetization":
+        return {"k": "seq", "data": [1e5, 2e5, 5e4], "c": "list"}
+    val = base[attr]
+    if isinstance(val, str) and val.startswith("@"):
+        return {"k": "func", "name": val[1:]}
+    if doc[0] == "scalar":
+        return {"k": "num", "v": val}
+    if doc[0] == "member":
+        return {"k": "str", "v": val}
+    return {"k": "seq", "data": json.loads(json.dumps(val)), "c": "list"}
+
+
+def history_case(cls_name, attr):
+    """valid -> None -> None -> rejected -> valid' -> rejected -> valid -> valid' on ONE object, reads interleaved; after
+    every step: accepted values read back, rejected ones change nothing, and the field equals that of a fresh twin
+    constructed with the value.  Returns (clause, what, value spec) or None"""
+    _, _, attrs = get_specs()[cls_name]
+    doc = attrs[attr]
+    v1, v2, bad = first_valid(cls_name, attr, doc), second_valid(doc, None if doc[0] in ("orientation", "member", "func")
+                                                                 else build(first_valid(cls_name, attr, doc))), \
+        bad_value(doc)
+    none = {"k": "none"}
+    steps = [v1]
+    if doc_valid(doc, none) is True:
+        steps += [none, none]
+    steps += [bad, v2, bad, v1, v2]
+    obj = make_obj(cls_name)
+    field_of(obj)
+    for i, v in enumerate(steps):
+        dv = doc_valid(doc, v)
+        before = snap(obj)
+        val = build(v)
+        try:
+            setattr(obj, attr, val)
+            outcome = "accepted"
+        except Exception as e:      # pylint: disable=broad-except
+            outcome = classify(e)
+        getattr(obj, attr)          # a read between the writes
+        if dv is False:
+            if outcome == "accepted":
+                return "accepts-undocumented", f"history step {i}: malformed value accepted", v
+            if outcome != "lib":
+                return "foreign-exception", f"history step {i}: raised {outcome[8:]}", v
+            if not same_snap(before, snap(obj)):
+                return "rejected-unchanged", f"history step {i}: rejected assignment changed the object", v
+            continue
+        if outcome != "accepted":
+            return "rejects-documented", f"history step {i}: documented value raised {outcome}", v
+        p = readback_problem(obj, attr, doc, val, v)
+        if p:
+            return "read-back", f"history step {i}: {p}", v
+        twin = make_obj(cls_name, (attr, build(v)))
+        p = twin_field_problem(obj, twin)
+        if p:
+            return "ctor-setter", f"history step {i}: {p}", v
+    return None
+
+
+def own_array_case(cls_name, attr):
+    """an object's own array handed to another object (b.attr = a.attr, Cls(attr=a.attr)): still an independent copy"""
+    _, _, attrs = get_specs()[cls_name]
+    doc = attrs[attr]
+    if doc[0] not in ("vec", "vecpath", "mat", "rows", "grid"):
+        return None
+    a = make_obj(cls_name)
+    if attr == "position":
+        a.position = [[1.0, 2.0, 3.0], [2.0, 3.0, 4.0]]
+    if attr == "magnetization":
+        a.magnetization = [1e5, 2e5, 5e4]
+    src = getattr(a, attr)
+    if not isinstance(src, np.ndarray):
+        return None
+    for via in ("setter", "ctor"):
+        if via == "setter" and (cls_name, attr) in CTOR_ONLY:
+            continue
+        if via == "setter":
+            b = make_obj(cls_name)
+            setattr(b, attr, src)
+        else:
+            b = make_obj(cls_name, (attr, src))
+        ra, rb = stored_raw(a, attr), stored_raw(b, attr)
+        if np.shares_memory(ra, rb):
+            return "read-back", f"{via}: the array of one object, assigned to another, is shared between them"
+        keep = np.array(rb, copy=True)
+        ra += 1
+        same = np.array_equal(stored_raw(b, attr), keep)
+        ra -= 1
+        if not same:
+            return "read-back", f"{via}: modifying one object's array changes the other object"
+    return None
+
+
+def batch_case(rng):
+    """accepted objects in ONE field call: >= 16 sources of all classes interleaved, twins (same geometry, other
+    excitation), duplicates, paths of length 1 / 3 / 5, field ratios up to 1e12, two sensors; no internal error and
+    every row equals the object's own getB (relative to the row's own scale)"""
+    names = [n for n in get_specs() if n not in ("Sensor", "Collection", "Collection2")]
+    srcs = []
+    for rnd in range(2):
+        for i, n in enumerate(names):
+            o = make_obj(n)
+            if hasattr(o, "polarization") and rnd == 1:
+                o.polarization = [1e-6 * (i + 1), -2e6, 0.0] if i % 2 else [0.0, 0.0, -1.0]      # twin, other excitation
+            if hasattr(o, "current") and rnd == 1:
+                o.current = -1e6 if i % 2 else 0.0
+            if n == "Polyline" and rnd == 1:
+                o.vertices = [[0, 0, 0], [1, 0, 0], [1, 1, 0], [0, 1, 0], [0, 0, 1.5]]
+            m = [1, 3, 5][(i + rnd) % 3]
+            if m > 1:
+                o.position = [[0.1 * k, 0.2 * i, -0.3 * k] for k in range(m)]
+                o.orientation = rot_about("z", [90.0 * k for k in range(m)])
+            srcs.append(o)
+    srcs.append(srcs[3])                         # duplicate
+    rng.shuffle(srcs)
+    sens = [magpy.Sensor(position=(0.7, -0.4, 2.3), pixel=[[0, 0, 0], [0.1, 0, 0.2]]),
+            magpy.Sensor(position=[(1.5, 1.0, -2.0), (1.0, 1.0, -2.5)], pixel=[[0, 0.1, 0], [0, 0, 0.3]],
+                         handedness="left")]
+    try:
+        big = magpy.getB(srcs, sens)
+        singles = [o.getB(sens) for o in srcs]
+    except Exception as e:          # pylint: disable=broad-except
+        return "computable", f"batch of accepted objects: getB raised {type(e).__name__}: {str(e)[:120]}", "all"
+    mmax = big.shape[1]
+    for j, (o, one) in enumerate(zip(srcs, singles)):
+        one = np.asarray(one)
+        if one.ndim == 3:                        # static object: tiled along the path axis
+            one = np.broadcast_to(one[None], (mmax,) + one.shape)
+        elif one.shape[0] < mmax:                # shorter path: held at its last position
+            one = np.concatenate([one, np.repeat(one[-1:], mmax - one.shape[0], axis=0)])
+        row = big[j]
+        scale = float(np.max(np.abs(one))) if one.size else 0.0
+        if row.shape != one.shape or float(np.max(np.abs(row - one))) > 1e-9 * scale + 1e-300:
+            return "computable", "batch of accepted objects: a row differs from the object's own getB", \
+                type(o).__name__
+    return None
 
 
 def describe(v):
@@ -1137,6 +1486,17 @@ def run(ctx):
 
 def replay(ctx, obj):
     rp = obj.get("replay", obj)
+    if rp.get("kind") in ("history", "own-array", "batch"):
+        import random      # pylint: disable=import-outside-toplevel
+        r = history_case(rp["class"], rp["attr"]) if rp["kind"] == "history" else \
+            own_array_case(rp["class"], rp["attr"]) if rp["kind"] == "own-array" else \
+            next((x for x in (batch_case(random.Random(i)) for i in range(20)) if x), None)
+        if r is not None:
+            print(f"replay: FAILS [{r[0]}] {r[1]}")
+            print(f"VIOLATION property=C17 replay={obj.get('how_to_rerun', '').split()[-1] or 'given'}")
+            return 1
+        print("replay: property holds on this input")
+        return 0
     if rp.get("kind") != "assignment":
         print(json.dumps(obj, indent=1)[:3000])
         return 0
@@ -1145,7 +1505,7 @@ def replay(ctx, obj):
         print(f"replay: {rp['class']}.{rp['attr']} via {via}: {o} {det.get('msg', '')}")
     hit = [f for f in fails if f[0] == rp.get("clause")] or fails
     if hit:
-        for c, w in hit:
+        for c, w in [(f[0], f[1]) for f in hit]:
             print(f"replay: FAILS [{c}] {w}")
         print(f"VIOLATION property=C17 replay={obj.get('how_to_rerun', '').split()[-1] or 'given'}")
         return 1
